@@ -1,6 +1,10 @@
 use rand::Rng;
 use rand_distr::Distribution;
 
+#[cfg(kani)]
+#[path = "/verif/kani/h_multinomial.rs"]
+mod verif_kani;
+
 pub struct Multinomial<'a> {
     // We store all be the last, since that should sum to one
     init_probs: &'a [f64],
